@@ -725,7 +725,7 @@ def contest_lit(c):
 def gen_contest(ctx, res, st, with_data):
     rng = ctx.rng
     A = AU()
-    typ = rng.choice(["POLLING", "CARD_COMPARISON", "CARD_COMPARISON"] + ([] if with_data else []))
+    typ = rng.choice(["POLLING", "CARD_COMPARISON", "CARD_COMPARISON"] + (["ONEAUDIT", "ONEAUDIT"] if with_data else []))
     N = rng.randint(3, 24)
     k = rng.randint(1, 4)
     specs = [gen_spec(rng, typ=typ, N=N, clean=True) for _ in range(k)]
@@ -765,7 +765,10 @@ def gen_contest(ctx, res, st, with_data):
         table = {id(a): fl(d) for a, d in zip(asns.values(), datas)}
         for a in asns.values():
             a.mvrs_to_data = types.MethodType(lambda self, m, c, use_all=False, _t=table: (_t[id(self)], self.test.u), a)
-        out = call(lambda: int(con.find_sample_size(audit=audit, mvr_sample=["mvrs"], cvr_sample=["cvrs"])))
+        if typ == "ONEAUDIT" and rng.random() < 0.7:      # no MVRs yet: the ONEAudit branch derives data from the CVRs
+            out = call(lambda: int(con.find_sample_size(audit=audit, cvr_sample=["cvrs"])))
+        else:
+            out = call(lambda: int(con.find_sample_size(audit=audit, mvr_sample=["mvrs"], cvr_sample=["cvrs"])))
     else:
         out = call(lambda: int(con.find_sample_size(audit=audit)))
     per = [getattr(a, "sample_size", None) for a in asns.values()]
